@@ -108,6 +108,17 @@ func (o Op) String() string {
 type Shape struct {
 	Repos  []int    `json:"repos"`  // repositories per context
 	Leaves []uint32 `json:"leaves"` // leaf sizes uploads pick from
+	// SameNames: the repositories of the second context carry the same names as those of the first one
+	// (different repositories: the contexts have their own metadata and only share the blob store)
+	SameNames bool `json:"same_repo_names,omitempty"`
+}
+
+// RepoName names repository r of context c
+func (s Shape) RepoName(c, r int) string {
+	if s.SameNames {
+		return RepoName(0, r)
+	}
+	return RepoName(c, r)
 }
 
 // Paths files are drawn from
@@ -135,6 +146,7 @@ func DrawShape(t *rapid.T) Shape {
 	s.Repos = []int{rapid.IntRange(1, 3).Draw(t, "repos0")}
 	if pick(t, "twoctx", 3, 2) == 1 {
 		s.Repos = append(s.Repos, rapid.IntRange(1, 2).Draw(t, "repos1"))
+		s.SameNames = rapid.Bool().Draw(t, "same_names")
 	}
 	l := []uint32{1024, 2048, 4096}[pick(t, "leaf", 2, 1, 1)]
 	s.Leaves = []uint32{l}
@@ -386,7 +398,7 @@ func NewWorld(s Shape) (*World, error) {
 		p.Stores = context2.NewStores(deadStore{p.Wal, w}, deadStore{p.ReadLog, w}, deadStore{p.Blob, w}, deadStore{p.Meta, w}, deadStore{p.VMeta, w})
 		w.Purge = append(w.Purge, p)
 		for r := 0; r < s.Repos[c]; r++ {
-			if err := hx.CreateRepo(u.Stores, RepoName(c, r)); err != nil {
+			if err := hx.CreateRepo(u.Stores, s.RepoName(c, r)); err != nil {
 				return nil, fmt.Errorf("setup: create repo: %v", err)
 			}
 		}
@@ -495,7 +507,7 @@ func (w *World) Apply(o Op, phase string) error {
 	if o.Repo >= w.Shape.Repos[o.Ctx] {
 		o.Repo = 0
 	}
-	repo := RepoName(o.Ctx, o.Repo)
+	repo := w.Shape.RepoName(o.Ctx, o.Repo)
 	switch o.Kind {
 	case OpUpload:
 		w.seq++
@@ -584,7 +596,7 @@ func (w *World) Apply(o Op, phase string) error {
 func (w *World) CheckModel() error {
 	for c, n := range w.Shape.Repos {
 		for r := 0; r < n; r++ {
-			repo := RepoName(c, r)
+			repo := w.Shape.RepoName(c, r)
 			bs, err := core.ListBundles(repo, w.Users[c].Stores)
 			if err != nil {
 				return fmt.Errorf("harness: ListBundles(%s): %v", repo, err)
@@ -860,7 +872,7 @@ func (w *World) StartHeldUpload(o Op, phase string) (*HeldUpload, error) {
 	if o.Repo >= w.Shape.Repos[o.Ctx] {
 		o.Repo = 0
 	}
-	repo := RepoName(o.Ctx, o.Repo)
+	repo := w.Shape.RepoName(o.Ctx, o.Repo)
 	w.seq++
 	id := hx.KSUID(w.seq, uint64(w.seq))
 	tree := TreeOf(o)
